@@ -355,7 +355,9 @@ class XGen:
             else:
                 out.append(self.paragraph(depth))
         # a deleted paragraph must be followed by a paragraph in the same container
-        if out and self._is_deleted(out[-1]):
+        last_deleted = max([k for k, x in enumerate(out) if self._is_deleted(x)] or [-1])
+        last_plain = max([k for k, x in enumerate(out) if isinstance(x, XmlElement) and x.name == "w:p" and not self._is_deleted(x)] or [-1])
+        if last_deleted > last_plain:
             out.append(self.paragraph(depth))
         return out
 
